@@ -36,13 +36,13 @@ def build(prog):
     nodes = {'a': NodeTemplate('a', operators={op: {f'p{j}': float(vals_a[j]) for j in vals_a}} if prog['ovr'] else [op])}
     edges = []
     if prog['nodes'] == 2:
-        nodes['b'] = NodeTemplate('b', operators={op: {f'p{j}': float(vals_b[j]) for j in vals_b}})
-        edges.append(('a/o/x', 'b/o/u', None, {'weight': float(w)}))
+        nodes['b'] = NodeTemplate('b', operators={op: dict({f'p{j}': float(vals_b[j]) for j in vals_b}, x=4.0)})   # distinct initial state
+        edges.append(('b/o/x', 'a/o/u', None, {'weight': float(w)}) if prog.get('rev') else ('a/o/x', 'b/o/u', None, {'weight': float(w)}))
     circ = CircuitTemplate('c', nodes=nodes, edges=edges)
     decl = [vals_a[j] for j in range(1, nd + 1)] + ([vals_b[j] for j in range(1, nd + 1)] if prog['nodes'] == 2 else [])
     coefs = [dict(row=1, c=coef[j]) for j in range(1, nd + 1)] + \
             ([dict(row=2, c=coef[j]) for j in range(1, nd + 1)] if prog['nodes'] == 2 else [])
-    edge = [dict(row=2, src=1, w=w)] if prog['nodes'] == 2 else []
+    edge = ([dict(row=1, src=2, w=w)] if prog.get('rev') else [dict(row=2, src=1, w=w)]) if prog['nodes'] == 2 else []
     return circ, decl, coefs, edge
 
 
@@ -134,11 +134,13 @@ def job(prog):
         a.update(decl=decl, coef=coefs, edge=edge, y=yv, dy=[int(round(float(v))) if float(v) == round(float(v)) else -999999 for v in dy])
         a['stpnt_compiled_agrees'] = all(abs(stp.get(e['slot'], 0.0) - e['val']) < 1e-9 for e in a['stpnt'])
         a['y_init'] = [float(v) for v in y]
+        a['ystp'] = [int(round(float(v))) if float(v) == round(float(v)) else -999999 for v in y]
+        a['x0'] = [1, 4][:nst]
         out.append(a)
     return dict(arts=out, nmx_ok=('NMX = 1234' in open('c.' + scen[-1]).read()) if prog['scen'] == 2 else True)
 
 
-ART_KEYS = ['stpnt', 'parnames', 'call', 'sig', 'dfdp', 'npar', 'ndim', 'unames', 'yinit', 'decl', 'coef', 'y', 'dy', 'edge']
+ART_KEYS = ['stpnt', 'parnames', 'call', 'sig', 'dfdp', 'npar', 'ndim', 'unames', 'yinit', 'decl', 'coef', 'y', 'dy', 'edge', 'x0', 'ystp']
 
 
 def validate(ctx, records, name):
@@ -159,9 +161,9 @@ def validate(ctx, records, name):
 def progs_expr(tier):
     if tier == 'quick':
         return '[nd : {1, 4, 9, 10, 13}, perm : {0, 2}, nodes : {1}, ovr : {FALSE}, scen : {1}] \\cup ' \
-               '[nd : {3, 5, 8}, perm : {1, 2}, nodes : {2}, ovr : {TRUE}, scen : {2}]'
+               '[nd : {3, 5, 8}, perm : {1, 2}, nodes : {2}, ovr : {TRUE}, scen : {2}, rev : BOOLEAN]'
     return '[nd : {1, 2, 4, 8, 9, 10, 11, 14, 20}, perm : {0, 1, 2}, nodes : {1}, ovr : BOOLEAN, scen : {1}] \\cup ' \
-           '[nd : {2, 3, 4, 5, 6, 8, 11}, perm : {0, 1, 2}, nodes : {2}, ovr : {TRUE}, scen : {1, 2}]'
+           '[nd : {2, 3, 4, 5, 6, 8, 11}, perm : {0, 1, 2}, nodes : {2}, ovr : {TRUE}, scen : {1, 2}, rev : BOOLEAN]'
 
 
 def run(ctx):
